@@ -29,6 +29,11 @@ impl<'a> WriteableGraph for EngineWriteTxn<'a> {
         rel: RelTypeId,
         dst: InternalNodeId,
     ) -> Result<()> {
+        if self.is_node_tombstoned_in_txn(src) || self.is_node_tombstoned_in_txn(dst) {
+            return Err(Error::Other(
+                "cannot create a relationship on a node deleted in this transaction".into(),
+            ));
+        }
         EngineWriteTxn::create_edge(self, src, rel, dst);
         Ok(())
     }
